@@ -4,6 +4,8 @@ import (
 	"fmt"
 	"sort"
 	"strings"
+	"sync"
+	"time"
 
 	"github.com/advancedclimatesystems/gonnx/onnx"
 	"verifmc/hx"
@@ -325,7 +327,7 @@ func checkC01(c *hx.Checker) {
 	c.Rule = "program-construction transition system: state = program prefix over graph inputs a,b:(2,2) s:(2,1,2) h:(1,1,2) and initializers w1,w2; transition = append one node instance = template x wiring of every input slot to every value of the right sort (or absent: omitted / empty name) x output naming scheme. " +
 		"Templates: Add/Sub/Mul (all ordered pairs for Sub), Relu, Transpose, Softmax{axis=-1}, Softmax{axis=0}, MatMul, Gemm{transB}, Gemm{transA,alpha=.5,beta=2} (C wired / omitted / empty), Concat+Slice, Reshape, Squeeze, Constant, RNN/GRU/LSTM with default and with explicit non-default activations (initial_h omitted / empty / wired; 5 output naming schemes: arbitrary, spec names, permuted spec names, trailing output omitted, skipped output with empty name). " +
 		"BFS: all programs of depth <= 2 over the full alphabet; depth 3 over the reduced alphabet {Sub, Relu, Transpose, Gemm2, GRU} as chains (each node consumes its predecessor's result)" +
-		map[bool]string{true: " and, thorough, unrestricted depth 3 over the reduced alphabet", false: ""}[thorough] +
+		map[bool]string{true: " and, thorough, unrestricted depth 3 over the reduced alphabet plus ALL depth-3 programs over the full alphabet (streamed simplest-first under a 25-minute budget; the evidence says whether it completed)", false: ""}[thorough] +
 		"; 2 input value sets; every depth<=1 program also with w1 declared as graph input (not supplied / supplied with another value). Every program is marshalled, loaded with NewModelFromBytes and Run with EVERY intermediate value declared as graph output, and compared value by value with the reference evaluation of the same graph. " +
 		"states = program prefixes, transitions = appended node instances; non-trivial = programs with >= 1 node"
 	c.Assumptions = []string{"reference evaluator: ref interpreter applied node by node to a name->tensor environment (refeval.go)", "tolerance 1e-4 (abs+rel) on float32 values of magnitude <= ~10",
@@ -387,8 +389,7 @@ func checkC01(c *hx.Checker) {
 	c.AddStates(states)
 	c.AddTransitions(transitions)
 	c.AddTraces(int64(len(items)))
-	c.ParallelFor(len(items), func(i int) {
-		it := items[i]
+	runItem := func(i int, it item) {
 		mc, expect := buildProgram(it.p, it.vs, it.pv)
 		tags := []string{fmt.Sprintf("depth=%d", len(it.p.Nodes)), "expect=" + expect}
 		ops := map[string]bool{}
@@ -407,7 +408,28 @@ func checkC01(c *hx.Checker) {
 			sample = map[string]any{"program": it.p.text(), "variant": fmt.Sprintf("%+v", it.pv)}
 		}
 		c.Case(hx.CaseInfo{ID: id, Tags: tags, NonTrivial: len(it.p.Nodes) > 0, Sample: sample}, func() *hx.Violation { return mc.run() })
-	})
+	}
+	c.ParallelFor(len(items), func(i int) { runItem(i, items[i]) })
+	if thorough {
+		// depth 3 over the FULL alphabet, streamed per depth-2 prefix (simplest first) under a wall-clock budget
+		c.SetBudget(25 * time.Minute)
+		var d3states, d3trans int64
+		var mu sync.Mutex
+		c.ParallelFor(len(level2), func(i int) {
+			succ := successors(level2[i], false, "")
+			mu.Lock()
+			d3trans += int64(len(succ))
+			d3states += int64(len(succ))
+			mu.Unlock()
+			for k, r := range succ {
+				runItem(i*1000+k, item{r, (i + k) % 2, progVariant{}})
+			}
+		})
+		c.Extra["programs_depth3_full_alphabet"] = d3states
+		c.AddStates(d3states)
+		c.AddTransitions(d3trans)
+		c.AddTraces(d3states)
+	}
 }
 
 func pick(outs []string) string {
